@@ -7,6 +7,12 @@
     and hands every recorded call to TLC (specs/num/TraceBn -> BnOps!Judge).
 (C) full width: drivers for digit widths 16..128 x BN_CC_MULL_DIV x {gcc,clang} x {-O0,-O2,-O3}; seeded operands
     of 1..BN_BIT_LEN bits biased to all-ones / single-bit / digit-boundary values; every call judged by TLC.
+(S) scalars at limb boundaries, every digit width 8/16/32/64/128 (also in the quick tier): TLC (specs/num/GenBnScalar)
+    enumerates digits / machine words / two-digit numbers just below, at and above 2^8, 2^16, 2^32, 2^64, 2^w (zero low
+    parts, all-ones high parts, seeded fillings), checks the reference across each boundary and says for which cut a
+    silent narrowing would show; every entry point that takes such a scalar (the *_digit functions, bn_mod_exp and
+    bn_mod_exp_digit exponents, shift counts, bit indices, the bn_digit_* helpers) is called with them on the build of
+    that width and judged by TLC.
 Python renders inputs, runs drivers and forwards TLC's verdicts; it computes no expected result."""
 import os, json, math, random, itertools, concurrent.futures as cf
 from rig import common
@@ -228,13 +234,14 @@ def parse_answer(line):
 
 MAX_CRASHES = 40      # per driver run; the quotas keep the crashes of the known findings far below this
 
-def batch_run_capped(exe, lines, env, timeout):
+def batch_run_capped(exe, lines, env, timeout, max_crashes=None):
     """like common.batch_run (one answer line per case, restart after a crash), but gives up after MAX_CRASHES dead
     driver processes: a defect that makes most calls hang must end in a verdict, not in a rig timeout.
     -> (results, number of cases actually run)"""
     res = [None] * len(lines); i = 0; crashes = 0
+    max_crashes = max_crashes or MAX_CRASHES
     e = {"UBSAN_OPTIONS": "print_stacktrace=1:halt_on_error=1"}; e.update(env)
-    while i < len(lines) and crashes < MAX_CRASHES:
+    while i < len(lines) and crashes < max_crashes:
         rc, out = common.sh([exe], stdin=("\n".join(lines[i:]) + "\n").encode(), timeout=timeout, env=e)
         k = 0
         for ln in out.split("\n"):
@@ -251,14 +258,14 @@ def batch_run_capped(exe, lines, env, timeout):
         i += k + 1; crashes += 1
     return res, i
 
-def run_cases(ctx, bld, cases, alarm):
+def run_cases(ctx, bld, cases, alarm, max_crashes=None):
     """-> list of events (dicts for TLC); crashes become events with rc = CRASH_RC"""
     lines = [case_line(c, POISONS[i % len(POISONS)]) for i, c in enumerate(cases)]
     env = {"ASAN_OPTIONS": "detect_leaks=0:abort_on_error=0:detect_stack_use_after_return=0:allocator_may_return_null=1",
            "BN_DRV_ALARM": str(alarm)}
-    res, done = batch_run_capped(bld.exe, lines, env, timeout=1800)
+    res, done = batch_run_capped(bld.exe, lines, env, timeout=1800, max_crashes=max_crashes)
     if done < len(lines):
-        ctx.log("%s: gave up after %d dead driver processes; %d of %d calls not run" % (bld.name, MAX_CRASHES, len(lines) - done, len(lines)))
+        ctx.log("%s: gave up after %d dead driver processes; %d of %d calls not run" % (bld.name, max_crashes or MAX_CRASHES, len(lines) - done, len(lines)))
         ctx.add(calls_not_run_after_crash_cap=len(lines) - done)
         cases, lines, res = cases[:done], lines[:done], res[:done]
     evs = []
@@ -432,6 +439,130 @@ def tier_b(ctx, builds):
         ctx.add(traces_validated_against_impl=1, builds=[bld.name])
         ctx.log("tier B %s: %d calls judged, %d rejected" % (bld.name, total[0], total[1]))
 
+# ------------------------------------------------------------------------------------------------ tier S
+def hang_budget(ctx):
+    """(watchdog seconds per call, dead driver processes tolerated per build) for the full-width tiers: a change that makes many
+    calls loop must end in a verdict within the tier's time budget (quick: <= 10 x 8 s per build), not in a rig timeout"""
+    return (8, 10) if ctx.quick else (20, MAX_CRASHES)
+
+def unlimbs(ls):
+    v = 0
+    for i, l in enumerate(ls): v |= l << (LB * i)
+    return v
+
+def run_scalar_gen(ctx, widths):
+    """TLC enumerates the boundary scalars (GenBnScalar) -> {(w, cls): [values]}"""
+    seeds = {(ctx.seed * 37 + 5) % 60000, (ctx.seed * 101 + 13) % 60000}
+    cfg = write_cfg("GenBnScalar_run.cfg", "INIT Init\nNEXT Next\nCONSTANTS\n Widths = %s\n Seeds = %s\n"
+                    "INVARIANTS ClassOk ExpSplit MulSplit ShiftSplit\nCONSTRAINT Emit\nCHECK_DEADLOCK FALSE\n"
+                    % (tlc_set(set(widths) | {64}), tlc_set(seeds)))
+    r = common.tlc("GenBnScalar", cfg=cfg, workers=1, timeout=1500, xss="64m", xmx="3g")
+    if r.rc != 0:
+        raise common.Infra("the reference arithmetic failed its own algebra at a limb boundary inside TLC (spec bug, not a code verdict): %s\n%s"
+                           % (r.violation, r.out[-3000:]))
+    sts = {(t["w"], t["cls"], tuple(t["s"])): t for t in common.tlc_printed_json(r.out)}     # the stuttering step re-emits each state
+    if len(sts) != r.distinct:
+        raise common.Infra("scalar corpus emission lost states: %d printed vs %d distinct" % (len(sts), r.distinct))
+    out = {}
+    for (w, cls, s), t in sorted(sts.items()):
+        out.setdefault((w, cls), []).append((unlimbs(s), t["bits"], set(t["cut"])))
+    # a narrowing to h bits must be visible in the corpus of every width that has digits / words wider than h
+    for w in widths:
+        for h in (8, 16, 32, 64):
+            if h < w and not any(h in cut for _, _, cut in out.get((w, "digit"), [])):
+                raise common.Infra("scalar corpus: no %d-bit digit whose cut to %d bits changes the probe power" % (w, h))
+        if not any(cut for _, _, cut in out.get((w, "two"), [])):
+            raise common.Infra("scalar corpus: no two-digit exponent for width %d whose cut shows" % w)
+    for h in (8, 16, 32):
+        if not any(h in cut for _, _, cut in out.get((64, "size"), [])):
+            raise common.Infra("scalar corpus: no machine word whose cut to %d bits shows" % h)
+    return r, out
+
+ONE_DIGIT_PRIME = {8: 251, 16: 65521, 32: 2 ** 32 - 5, 64: 2 ** 64 - 59, 128: 2 ** 127 - 1}
+LONG_A = int("9e3779b97f4a7c15f39cc0605cedc834" * 11, 16)            # 1408 bits, top bit set (input only)
+
+def scalar_probes(w):
+    """(a, m) pairs for the modular calls: one-digit prime, many-digit prime, two-digit odd composite; a < m"""
+    m1 = ONE_DIGIT_PRIME[w]; m2 = 2 ** 255 - 19; m3 = (0xf1 << w) + 0x35
+    return [(m1 - 2, m1), (3 % m1, m1), (m2 - 2, m2), (7, m2), (m3 - 1, m3)]
+
+def scalar_cases(corpus, w, maxd, lean):
+    """calls of every entry point that takes a digit / machine word / small exponent, for the scalars TLC listed"""
+    out = []; mask = (1 << w) - 1; capbits = maxd * w
+    probes = scalar_probes(w)
+    def modcaps(m): return uniq([2 * dg(m, w), 2 * dg(m, w) + 1], 1, maxd)
+    prev = 6
+    for s, bits, cut in corpus.get((w, "digit"), []):
+        for (a, m) in probes:                                   # the scalar as the exponent of bn_mod_exp (one digit)
+            for ca in modcaps(m)[:1 if lean and a < 8 else 2]:
+                out.append(case("mod_exp", a, s, m, ca=ca, w=w))
+                if bits <= 64: out.append(case("mod_exp_digit", a, s, m, ca=ca, w=w))
+                out.append(case("mod_mult_digit", a, s, m, ca=ca, cb=1, w=w))
+            out.append(case("mod_mult_digit", a, s, m, ca=dg(m, w) + 1, cb=1, w=w))
+        for a in (mask, (mask << w) | mask, (5 << w) | 3, s, (1 << (3 * w)) | (s >> 1)):
+            for ca in uniq([c1(a, w), c1(a, w) + 1], 1, maxd):
+                for op in ("add_digit", "sub_digit", "mult_digit"):
+                    out.append(case(op, a, s, ca=ca, cb=1, w=w))
+        for a in (0, 1, 2, 3, mask, (1 << w) | 1):
+            for ca in uniq([c1(a, w), 4 * c1(a, w), maxd], 1, maxd):
+                out.append(case("exp_digit", a, s, ca=ca, cb=1, w=w))
+        if s:
+            out.append(case("assign_digit", mask, s, ca=1, cb=1, w=w)); out.append(case("assign_digit", (mask << w) | 1, s, ca=3, cb=1, w=w))
+        out.append(case("digit_ctz", s, ca=1, w=w)); out.append(case("digit_clz", s, ca=1, w=w))
+        for d in (s, prev, 6, 1 << (w - 1), mask):
+            for op in ("digit_gcd", "digit_gcd_bin"):
+                out.append(case(op, s, d, ca=1, cb=1, w=w))
+            out.append(case("digit_mult", s, d, ca=2, cb=1, cr=2, w=w))
+            if d:
+                out.append(case("digit_div", (s << w) | d, d, ca=2, cb=1, cr=2, w=w)); out.append(case("digit_div", (prev << w) | s, d, ca=2, cb=1, cr=2, w=w))
+        if s: out.append(case("digit_div", (mask << w) | mask, s, ca=2, cb=1, cr=2, w=w))
+        for op in ("is_zero", "is_one", "is_odd", "is_pow2", "ctz", "clz", "calc_bits", "sqrt"):
+            out.append(case(op, s, ca=1, w=w)); out.append(case(op, s, ca=2, w=w))
+        prev = s
+    for s, bits, cut in corpus.get((w, "two"), []):            # two-digit exponents (zero / all-ones low digit, ...)
+        for (a, m) in probes:
+            for ca in modcaps(m):
+                out.append(case("mod_exp", a, s, m, ca=ca, w=w))
+        for op in ("is_one", "is_pow2", "ctz", "clz", "calc_bits", "sqrt"):
+            out.append(case(op, s, ca=2, w=w))
+    small_a = 0x1234567
+    for s, bits, cut in corpus.get((64, "size"), []):           # machine words: exponents, shift counts, bit indices
+        for (a, m) in probes:
+            out.append(case("mod_exp_digit", a, s, m, ca=modcaps(m)[0], w=w))
+        if s < (1 << 30):
+            out.append(case("r_shift", LONG_A, ca=maxd, k=s, w=w)); out.append(case("r_shift", (LONG_A >> 13) | 1, ca=maxd, k=s, w=w))
+            for a in (0, small_a, LONG_A, mask):
+                out.append(case("is_bit_set", a, ca=max(1, c1(a, w)), k=s, w=w))
+        if s < (1 << 30):
+            if s + 25 <= capbits: out.append(case("l_shift", small_a, ca=maxd, k=s, w=w)); out.append(case("l_shift", 1, ca=maxd, k=s, w=w))
+            if s >= capbits: out.append(case("l_shift", small_a, ca=maxd, k=s, w=w))          # everything shifted out / unspecified, must not crash
+            for a in (0, small_a, LONG_A):
+                for v in (0, 1):
+                    out.append(case("bit_set", a, ca=maxd, k=s, k2=v, w=w))
+            out.append(case("bit_set", 1, ca=min(maxd, max(1, (s // w))), k=s, k2=1, w=w))               # index just beyond the capacity
+            out.append(case("assign_2exp", LONG_A, ca=maxd, k=s, w=w)); out.append(case("assign_2exp", 1, ca=min(maxd, max(1, (s // w))), k=s, w=w))
+            out.append(case("assign_2exp", 1, ca=min(maxd, (s // w) + 1), k=s, w=w))
+    return out
+
+def tier_s(ctx, sbuilds, gen, own):
+    """-> events of the scalar corpus on every build in sbuilds (judged together with tier C); own = builds only this tier uses"""
+    r, corpus = gen
+    ctx.tlc_stats(r, "GenBnScalar")
+    ctx.add(generated_boundary_scalars=sum(len(v) for v in corpus.values()))
+    def one_build(bld):
+        cases = scalar_cases(corpus, bld.w, bld.maxd, lean=ctx.quick)
+        return run_cases(ctx, bld, cases, *hang_budget(ctx))
+    pool = []
+    with cf.ThreadPoolExecutor(max_workers=4) as ex:
+        for bld, evs in zip(sbuilds, ex.map(one_build, sbuilds)):
+            pool += evs
+            ctx.add(evaluations=len(evs), scalar_boundary_calls=len(evs), distinct_nontrivial=len({e["_line"] for e in evs}))
+            if bld in own: ctx.add(builds=[bld.name], traces_validated_against_impl=1)
+    ctx.cov["scalar_boundary_widths"] = sorted({b.w for b in sbuilds})
+    ctx.log("tier S: %d boundary scalars x %d builds (digit widths %s): %d calls" % (
+        sum(len(v) for v in corpus.values()), len(sbuilds), sorted({b.w for b in sbuilds}), len(pool)))
+    return pool
+
 # ------------------------------------------------------------------------------------------------ tier C
 KNOWN_PRIMES = [
     2 ** 192 - 2 ** 64 - 1, 2 ** 224 - 2 ** 96 + 1, 2 ** 256 - 2 ** 224 + 2 ** 192 + 2 ** 96 - 1,
@@ -460,7 +591,7 @@ def rnd_val(rng, maxbits, w):
     else: v = rng.getrandbits(bits)
     return v
 
-def tier_c(ctx, builds, per_build):
+def tier_c(ctx, builds, per_build, extra=()):
     def one_build(bld):
         rng = random.Random(ctx.seed * 104729 + 17)      # same operands for every configuration
         w, maxd, bits = bld.w, bld.maxd, bld.bits
@@ -487,18 +618,20 @@ def tier_c(ctx, builds, per_build):
             cases += mod_cases(x, y, m, prime, w, maxd, q)
         cases = [c for c in cases if c["k"] < (1 << 30) and c["k2"] < (1 << 30)]
         sel = rng.sample(cases, min(per_build, len(cases)))
-        return run_cases(ctx, bld, sel, alarm=20)
+        return run_cases(ctx, bld, sel, *hang_budget(ctx))
     pool = []
     with cf.ThreadPoolExecutor(max_workers=4) as ex:
         for bld, evs in zip(builds, ex.map(one_build, builds)):
             pool += evs
             ctx.add(evaluations=len(evs), traces_validated_against_impl=1, builds=[bld.name], distinct_nontrivial=len({e["_line"] for e in evs}))
+    npool = len(pool)
+    pool += list(extra)                               # tier S events: one judging pass for both
     rej = judge(ctx, "c", pool, "TraceBn.cfg", chunk=max(700, min(20000, (len(pool) + 3) // 4)))
     report(ctx, rej)
     ctx.add(samples=[{"build": e["_bld"], "call": e["_line"][:300], "rc": e["rc"], "r": e["r"][:12]} for e in pool[:3]])
     per = {}
     for ev, _, _ in rej: per[ev["_bld"]] = per.get(ev["_bld"], 0) + 1
-    ctx.log("tier C: %d builds, %d calls judged, %d rejected %s" % (len(builds), len(pool), len(rej), per if len(per) < 8 else ""))
+    ctx.log("tier C+S: %d builds, %d + %d calls judged, %d rejected %s" % (len(builds), npool, len(pool) - npool, len(rej), per if len(per) < 8 else ""))
 
 def has_int128(compiler, d):
     src = os.path.join(d, "i128.c")
@@ -514,27 +647,37 @@ def run(ctx):
     if rc != 0:
         raise common.Infra("javac failed for the BigNatX accelerator:\n" + out[-2000:])
     bbuilds = [Build(8, 64, False, "gcc", "-O1", True), Build(8, 64, True, "clang", "-O1", True)]
+    i128 = has_int128("gcc", d) and has_int128("clang", d)
+    if not i128: ctx.assumptions.append("128-bit digits skipped: compiler lacks __int128")
     if ctx.quick:
         cbuilds = [Build(64, 1408, True, "gcc", "-O2", False), Build(32, 1408, False, "clang", "-O3", False),
-                   Build(16, 1408, False, "gcc", "-O0", False)]
+                   Build(16, 1408, False, "gcc", "-O0", False)] + ([Build(128, 1408, False, "clang", "-O2", False)] if i128 else [])
+        own_s = [Build(8, 1408, False, "gcc", "-O1", False)]       # 8-bit digits at full length: shift counts / bit indices / exponents above one digit
         per_build = 700
     else:
-        widths = [16, 32, 64] + ([128] if has_int128("gcc", d) and has_int128("clang", d) else [])
-        if 128 not in widths: ctx.assumptions.append("128-bit digits skipped: compiler lacks __int128")
+        widths = [16, 32, 64] + ([128] if i128 else [])
         cbuilds = [Build(w, 1408, cc, comp, opt, False) for w in widths for cc in ((False, True) if w != 128 else (False,))
                    for comp in ("gcc", "clang") for opt in ("-O0", "-O2", "-O3")]
+        own_s = [Build(8, 1408, cc, comp, "-O2", False) for cc in (False, True) for comp in ("gcc", "clang")]
         per_build = 2500
-    build_all(bbuilds + cbuilds, d)
-    ctx.log("built %d drivers" % (len(bbuilds) + len(cbuilds)))
+    sbuilds = own_s + cbuilds                                  # tier S: every digit width 8, 16, 32, 64, 128
+    only = os.environ.get("VERIF_C01_ONLY", "")        # development aid: "b", "c" or "s"
+    gen_ex = cf.ThreadPoolExecutor(max_workers=1)              # the scalar corpus is generated while tier B runs
+    gen_f = gen_ex.submit(run_scalar_gen, ctx, sorted({b.w for b in sbuilds})) if only in ("", "s") else None
+    build_all(bbuilds + own_s + cbuilds, d)
+    ctx.log("built %d drivers" % (len(bbuilds) + len(own_s) + len(cbuilds)))
     if not ctx.quick:        # larger override-vs-definition sample, once per thorough run (every TraceBn run repeats the 40-tuple one)
         judge(ctx, "selfcheck", [], "TraceBn_thorough.cfg")
-    only = os.environ.get("VERIF_C01_ONLY", "")        # development aid: "b" or "c"
-    if only != "c": tier_b(ctx, bbuilds)
-    if only != "b": tier_c(ctx, cbuilds, per_build)
+    if only in ("", "b"): tier_b(ctx, bbuilds)
+    extra = tier_s(ctx, sbuilds, gen_f.result(), own_s) if gen_f else []
+    gen_ex.shutdown()
+    if only in ("", "c", "s"): tier_c(ctx, cbuilds if only != "s" else [], per_build, extra)
     flush_failures(ctx)
     ctx.cov["rule"] = ("tier B: operand tuples = all reachable states of GenBn (every value of 1..3 eight-bit digits over the boundary "
                        "digit set, plus seeded values, x moduli), expanded over declared capacities, aliasing patterns and parameters by "
-                       "the table in this file; tier C: seeded operands up to BN_BIT_LEN bits per build configuration. Every call is "
+                       "the table in this file; tier C: seeded operands up to BN_BIT_LEN bits per build configuration; tier S: scalar arguments = all "
+                       "reachable states of GenBnScalar (digits, machine words and two-digit exponents around 2^8, 2^16, 2^32, 2^64, 2^w) for "
+                       "every digit width 8..128, expanded over the scalar-taking entry points. Every call is "
                        "judged by TLC (BnOps!Judge); distinct = distinct driver call lines; non-trivial = all (zero operands are boundary cases)")
     ctx.assumptions += [
         "oracle = TLA+ modules specs/num/BigNat, BnOps evaluated by TLC; BigNat is itself checked against TLC native integers on the whole small-domain corpus (GenBn invariants)",
@@ -543,4 +686,5 @@ def run(ctx):
         "modular add/sub/exp are exercised with reduced operands (a, b < m) and m >= 2 as every caller in the repository does; mod_sqrt with prime or even moduli; is_even(0), ctz(0), clz(0) unspecified",
         "error codes are only compared as zero / non-zero (mod_sqrt: -1 = no root); values after a reported error are not inspected",
         "the driver's limb<->digit rendering (harness/bn_drv.c) and Python's input rendering are trusted; sanitizer: ASan on the 8-bit builds, plain builds in the compiler/optimisation matrix",
-        "Barrett reduction, bn_egcd, bn_mod_inv1/2/3/_mont, bn_sqrt2..5, bn_exp_digit, bn_mod_exp_digit, bn_mod_div are not exercised"]
+        "bn_exp_digit / bn_mod_exp_digit / bn_mod_mult_digit / bn_assign_digit / bn_assign_2exp / bn_digit_gcd / bn_digit_ctz / bn_digit_clz are exercised by tier S only (boundary scalars, a few fixed big operands)",
+        "Barrett reduction, bn_egcd, bn_mod_inv1/2/3/_mont, bn_sqrt2..5, bn_mod_div are not exercised"]
